@@ -1585,14 +1585,14 @@ def dom_vector(run, thorough):
             case = dict(src=src, ops=[op])
             if _admissible(case) and not any(c in PENDING for fl in dry_run(case)[0] for _, c in fl):
                 mu.check(case, label='vector-valued-descriptor')
-    if False:  # pending triage: concat-default-target-vector-valued-descriptor
+    if True:   # repaired in /repo df506db3 (was pending triage): concat-default-target-vector-valued-descriptor
         for ptype in ('array', 'list'):
             src = [_src([3, 1], cids, porder=pord, rorder=rord, ptype=ptype), _src([7], cids, porder=pord, rorder=rord, ptype=ptype)]
             mu.check(dict(src=src, ops=[['concat', None, {'objs': [0, 1], 'target': None}]]))
-    if False:  # pending triage: to_df-vector-valued-descriptor
+    if True:   # recorded as an open finding (known_findings.json): to_df-vector-valued-descriptor
         src = [_src([3, 1], cids, porder=pord, ptype='array')]
         mu.check(dict(src=src, ops=[['copy', 0, {}]], export_vector=True), label='to_df-vector-valued-descriptor')
-    if False:  # pending triage: permute_rdms-vector-of-another-integer-type
+    if True:   # repaired in /repo 13aa238a (was pending triage): permute_rdms-vector-of-another-integer-type
         for dt in ('int32', 'uint8'):
             mu.check(dict(src=[_src([3, 1], cids)], ops=[['permute', 0, {'perm': 'rot', 'dt': dt}]]))
     return mu.done()
